@@ -105,14 +105,14 @@ def _hook(event, args):
             if isinstance(flags, int) and flags & _WRITE_FLAGS:
                 w = True
             txt, real = _resolve(path)
-            ev.append(("open", "W" if w else "R", txt, real, _caller()))
+            ev.append(("open", "W" if w else "R", txt, real, _caller(), os.path.lexists(real) if w else True))
         finally:
             _MON["on"] = True
         return
     spec = EVENTS.get(event)
     if spec is None:
         if event.startswith(("shutil.", "tempfile.")):
-            ev.append((event, "W", repr(args)[:200], "<unknown event>", "?"))
+            ev.append((event, "W", repr(args)[:200], "<unknown event>", "?", True))
         return
     _MON["on"] = False
     try:
@@ -124,9 +124,13 @@ def _hook(event, args):
                     if event == "tempfile.mkstemp" and i == 0 and not isinstance(args[0], (str, bytes)):
                         continue
                     txt, real = _resolve(args[i], dfd)
-                    ev.append((event, kind, txt, real, _caller()))
+                    if event == "os.mkdir" and os.path.lexists(real):
+                        # mkdir of an existing path fails with EEXIST and creates nothing (os.makedirs(exist_ok=True) probes)
+                        ev.append(("os.mkdir[exists]", "N", txt, real, _caller(), True))
+                        continue
+                    ev.append((event, kind, txt, real, _caller(), event != "os.mkdir"))
     except Exception as e:  # noqa - the monitor must never disturb the monitored code
-        ev.append((event, "W", f"<monitor error {type(e).__name__}: {e}>", "<unresolvable>", "?"))
+        ev.append((event, "W", f"<monitor error {type(e).__name__}: {e}>", "<unresolvable>", "?", True))
     finally:
         _MON["on"] = True
 
@@ -188,6 +192,8 @@ class Sandbox:
         self.cwd = os.path.join(self.root, "cwd")
         os.makedirs(self.tmp)
         self.snap0 = self.snapshot()
+        self._known = [("", ("dir", 0, b""))] + sorted(self.snap0.items())
+        self._sig0 = self.signature()
 
     def snapshot(self):
         """everything under root except the temp root: {relative path: (type, mode, content)}"""
@@ -212,7 +218,30 @@ class Sandbox:
                     out[r] = ("special", stat.S_IMODE(st.st_mode), b"")
         return out
 
+    def signature(self):
+        """cheap integrity signature of the sandbox tree (directory listings + lstat of every known entry); any content
+        change that keeps size and mtime needs os.utime, which the monitor reports as a write event anyway"""
+        sig = []
+        for rel, (typ, _, _) in self._known:
+            p = os.path.join(self.root, rel) if rel else self.root
+            try:
+                st = os.lstat(p)
+                sig.append((rel, st.st_mode, st.st_size if typ != "dir" else 0, st.st_mtime_ns if typ != "dir" else 0, st.st_ino))
+                if typ == "dir":
+                    names = sorted(os.listdir(p))
+                    if rel == "":
+                        names = [n for n in names if n != "tmp"]
+                    sig.append((rel, tuple(names)))
+            except OSError as e:
+                sig.append((rel, "missing", e.errno))
+        return sig
+
+    def intact(self):
+        return self.signature() == self._sig0
+
     def tmp_listing(self):
+        if not os.listdir(self.tmp):
+            return []
         out = []
         for d, dirs, files in os.walk(self.tmp):
             for n in sorted(dirs + files):
@@ -231,7 +260,19 @@ class Sandbox:
                     pass
 
     def restore(self):
-        """put the canaries back after a violation so that later cases start from the same state"""
+        """rebuild the sandbox (except the temp root) after a violation so that later cases start from the same state"""
+        for n in os.listdir(self.root):
+            if n != "tmp":
+                p = os.path.join(self.root, n)
+                if os.path.isdir(p) and not os.path.islink(p):
+                    shutil.rmtree(p, ignore_errors=True)
+                else:
+                    os.remove(p)
+        os.makedirs(self.cwd, exist_ok=True)
+        self._fill()
+        self._sig0 = self.signature()
+
+    def _fill(self):
         for rel, tok in zip(CANARY_FILES, self.tokens):
             p = os.path.join(self.root, rel)
             os.makedirs(os.path.dirname(p), exist_ok=True)
